@@ -455,10 +455,7 @@ def _worker(jobs):
         if not pts:
             out.append({'i': i, 'cfg': cfg, 'skip': 'no point satisfies the domain constraints'})
             continue
-        try:
-            fails, info = compare(rec, cfg, pts)
-        except MachineryError:
-            raise
+        fails, info = compare(rec, cfg, pts)
         out.append({'i': i, 'cfg': cfg, 'pts': [{v: a.tolist() for v, a in pt.items()} for pt in pts],
                     'fails': [(f[0], _l(f[1]), _l(f[2]), f[3]) for f in fails[:4]], 'info': info})
     return out
@@ -551,9 +548,10 @@ def has_branch(rec):
 
 
 def pred_stale_sparsity(scn, info):
-    """automatic coloring keeps the sparsity found at the first point: an entry of max/min that is zero there stays zero"""
+    """automatic coloring keeps the sparsity sampled at the first linearization point: an entry whose exact derivative was
+    (numerically) zero there - inactive max/min branch, abs(x)+x for x<0, saturated tanh - is nonzero at a later point"""
     cfg = scn.get('cfg', {})
-    return (bool(scn.get('branch')) and cfg.get('col') and not cfg.get('hd') and scn.get('point', 0) > 0
+    return (bool(cfg.get('col')) and not cfg.get('hd') and scn.get('point', 0) > 0
             and scn.get('stale_sparsity_at') == scn.get('point')
             and any(s in ('v', 'm') for s in cfg.get('shapes', [])))
 
